@@ -77,12 +77,12 @@ static void cmd(char **tok,int nt){
     link_t *L=x->L; int k=atoi(tok[2]); if(k<0||k>=L->npk-3) return; pkt_t *p=&L->pk[3+k]; int trk=c[1]=='t';
     long nb; const char *mut=find_mut(tok,nt); unsigned char *b=mutate(p,mut,&nb,L);
     ogg_packet op; memset(&op,0,sizeof op); op.packet=b; op.bytes=nb; op.packetno=p->no; op.granulepos=p->gp; op.e_o_s=p->eos;
-    const char *o; if((o=find_opt(tok,nt,"gp="))&&strcmp(o,"keep")) op.granulepos=atoll(o); if((o=find_opt(tok,nt,"no="))) op.packetno=atoll(o); if((o=find_opt(tok,nt,"eos="))) op.e_o_s=atoi(o);
+    int gpf=0; const char *o; if((o=find_opt(tok,nt,"gp="))&&strcmp(o,"keep")){ op.granulepos=atoll(o); if(op.granulepos!=-1) gpf=1; } if(find_opt(tok,nt,"eos=")||find_opt(tok,nt,"no=")) gpf=1; if((o=find_opt(tok,nt,"no="))) op.packetno=atoll(o); if((o=find_opt(tok,nt,"eos="))) op.e_o_s=atoi(o);
     int rs=trk?vorbis_synthesis_trackonly(&x->vb,&op):vorbis_synthesis(&x->vb,&op); long used=oggpack_bits(&x->vb.opb); int W=x->vb.W; int rb=-9999;
     if(rs==0) rb=vorbis_synthesis_blockin(&x->vd,&x->vb);
     free(b);
     ev_begin(trk?"TrackOnly":"Synthesis"); ev_i("d",di); ev_i("k",k); ev_i("mut",mut!=NULL); ev_i("W",rs==0?W:p->W); ev_i("cW",p->W); ev_i("no",op.packetno); ev_i("gp",op.granulepos); ev_i("eos",op.e_o_s); ev_i("bytes",nb);
-    ev_i("rs",rs); ev_i("used",used); ev_i("rb",rb); ev_dst(x); ev_end();
+    ev_i("rs",rs); ev_i("used",used); ev_i("rb",rb); ev_i("gpf",gpf); ev_dst(x); ev_end();
     if(rs==0&&rb==0&&!trk){ x->lastk=k; x->lastclean=(mut==NULL); } }
   else if(!strcmp(c,"pblk")){ int rb=vorbis_synthesis_blockin(&x->vd,&x->vb); ev_begin("BlockinAgain"); ev_i("d",di); ev_i("rb",rb); ev_dst(x); ev_end(); }
   else if(!strcmp(c,"pout")){
